@@ -13,6 +13,9 @@ from common import Run, build, audit_property_file, forbidden_tokens
 KERNEL = 'Coq 8.16.1 kernel (coqc, full .vo build; vm_compute; no native_compute)'
 EXTRACTION = 'extraction with ExtrOcamlBasic only (bool/option/unit/list/prod/sumbool/sumor mapped to OCaml types; nat, positive, Z, Q kept as extracted inductives), OCaml 4.13.1, ocaml/<x>_driver.ml'
 
+SHELL_TRUST = ['harness/trace.py: TracedSampler (subclass wrapping add_bound, sample_shell, evaluate_likelihood, add_samples), ids by exact byte pattern, inference of replaced proposals / used transfer candidates from observables, contains table filled by calling bound.contains',
+               'modelled not verified: bound construction and geometry (contains is an arbitrary oracle in the theorems), numpy Generator, the floating-point decisions of run() (f_live, n_eff target, arg-max shell, acceptance of a bound) which enter as oracle bits']
+
 # per property: harness module, property file, theorems that must be present (each with Print Assumptions beneath)
 PROPS = {
     'C15': dict(module='c15', pfile='P_C15',
@@ -33,6 +36,12 @@ PROPS = {
                 trusted=[KERNEL, EXTRACTION,
                          'harness/c13.py: derivation of the oracle data (blocked attempts, labels, trim decision) from observable records; exact dyadic volumes exp(log_v)',
                          'modelled not verified: GaussianMixture clustering, MVEE construction of the halves, ellipsoids_overlap (all oracle data checked by the model step)']),
+    'C01': dict(module='c01', pfile='P_C01', required=['C01_partition', 'C01_assoc', 'C01_disjoint', 'C01_limbo'], trusted=[KERNEL, EXTRACTION] + SHELL_TRUST),
+    'C02': dict(module='c02', pfile='P_C02', required=['C02_aligned', 'C02_fraction', 'C02_volume', 'C02_evidence', 'C02_weights', 'C02_kish'],
+                trusted=[KERNEL, EXTRACTION] + SHELL_TRUST + ['exact evaluator EstimExec (dyadic sums) used for the comparison; its agreement with the specification Estim.v is by construction of the same formulas, compared numerically (not yet a refinement theorem)', 'exp/log at the boundary of the exact model and the 1e-9 tolerance in harness/shellfam.py']),
+    'C03': dict(module='c03', pfile='P_C03', required=['C03_rows', 'C03_once', 'C03_posterior'], trusted=[KERNEL, EXTRACTION] + SHELL_TRUST),
+    'C10': dict(module='c10', pfile='P_C10', required=['C10_batch', 'C10_counter', 'C10_count', 'C10_budget', 'C10_success', 'C10_branch'], trusted=[KERNEL, EXTRACTION] + SHELL_TRUST + ['oracle bits of the run() loop: n_eff >= target recomputed by the harness from the public accessor, time-out only exercised as timeout=0']),
+    'C12': dict(module='c12', pfile='P_C12', required=['C12_frozen', 'C12_nonempty', 'C12_toggle', 'C12_view'], trusted=[KERNEL, EXTRACTION] + SHELL_TRUST),
 }
 
 
